@@ -493,6 +493,25 @@ Section WithData.
     | EServer be => {| o_out := authn_response be a (i_pol x) (i_sp x) (i_md x); o_caller := a; o_self := None |}
     end.
 
+  (* ==== the LIFE of one Policy object (the one a running Server holds) ======================= *)
+  (* The configuration is fixed when the object is built.  Between two calls the user, the requester,
+     the arguments and the CONTENT of the metadata store may change (a refresh): st_md is what the store
+     says about the requester AT THE TIME of the call.  The code keeps nothing between calls that
+     takes part in a release (Policy.acs is a lazily loaded constant, the compiled restrictions are
+     never written again): the model of a life is the call-by-call model, in the order of the calls. *)
+  Record step := {
+    st_ident : ava;
+    st_sp : string;
+    st_md : option mdinfo;      (* the requester as described NOW; None: the Policy has no store *)
+    st_entry : entry
+  }.
+
+  Definition step_input (p : policy) (s : step) : input :=
+    {| i_ident := st_ident s; i_pol := p; i_sp := st_sp s; i_md := st_md s; i_entry := st_entry s |}.
+
+  Definition run_life (p : policy) (l : list step) : list output :=
+    map (fun s => run (step_input p s)) l.
+
   (* ==== the code BEFORE the repairs a4e3dbdd / 47cc754e (kept for the refutations) ============ *)
   (* 47cc754e: `if mds:` guarded the whole loop: without a store the restriction dict stayed empty *)
   Definition get_ec_v0 (s : option section) (ecs : option (list string)) (req : list reqattr)
